@@ -664,7 +664,8 @@ def run(ctx):
         if not ctx.quick:
             big = [rng.choice([100, 150, 200, rng.randint(41, 200)]) for _ in range(12)]
             simulate(ctx, judge, "sim_large", big, 60, 200, 20, False, False, 60, third=True)
-    judge.flush()
+    if judge.recs or not only or (only & {"tr", "trm", "sim"}):
+        judge.flush()
     if want("mixed"):
         # composition: set operations interleaved with pose operations and EM round trips on one live list
         # (MotlSysTrace.tla, Scope = "set": only the set steps are judged, pose steps re-synchronise)
